@@ -212,3 +212,15 @@ package nflog
 //@   props C04 C10
 //@   nosafe
 //@   ensures [answer-of-the-lookup] called("Query$1") && result0 == ret("Query$1") && result1 == ret1("Query$1")
+
+// ---- C10 / C11: the full state (push/pull exchange, snapshot): every stored entry is encoded, once; an encoding
+// error aborts with that error and no partial output.
+//@ func (state).MarshalBinary
+//@   props C10 C11 C19
+//@   nosafe
+//@   at call protodelim.MarshalTo assert [a-stored-entry] exists k string :: (k in s) && s[k] == unbox(arg1, *pb.MeshEntry)
+//@   ensures [every-entry-encoded-once] result1 == nil ==> count("protodelim.MarshalTo") == len(s)
+//@   ensures [error-aborts] called("protodelim.MarshalTo") && ret1("protodelim.MarshalTo") != nil ==> result1 == ret1("protodelim.MarshalTo") && result0 == nil
+//@   loop 1 invariant count("protodelim.MarshalTo") == len(visited) && (called("protodelim.MarshalTo") ==> ret1("protodelim.MarshalTo") == nil)
+//@   loop 1 invariant (forall k string :: (k in visited) ==> (k in s)) && dom(s) == old(dom(s))
+//@   noeffect protodelim.MarshalTo
